@@ -44,6 +44,10 @@ var typedKits []typedKit
 // zeroed, or (dirtyOut) one that was used before and still holds old bytes.
 var dirtyOut bool
 
+// inPlace: KEM kits also decapsulate with the secret buffer overlapping the ciphertext buffer
+// (the secret written over the first bytes of a copy of the ciphertext) and append that result.
+var inPlace bool
+
 func outBuf(n int) []byte {
 	b := make([]byte, n)
 	if dirtyOut {
@@ -87,6 +91,12 @@ func init() {
 			ct, ss, ss2 := outBuf(kyber512.CiphertextSize), outBuf(kyber512.SharedKeySize), outBuf(kyber512.SharedKeySize)
 			pk.(*kyber512.PublicKey).EncapsulateTo(ct, ss, r.Bytes(kyber512.EncapsulationSeedSize))
 			sk.(*kyber512.PrivateKey).DecapsulateTo(ss2, ct)
+			if inPlace {
+				// the same decapsulation with the secret written over the start of the ciphertext buffer
+				buf := append([]byte{}, ct...)
+				sk.(*kyber512.PrivateKey).DecapsulateTo(buf[:len(ss2)], buf)
+				ss2 = append(ss2, buf[:len(ss2)]...)
+			}
 			return append(append(ct[:32:32], ss...), ss2...)
 		}})
 	typedKits = append(typedKits, typedKit{name: "kem/kyber/kyber768", seedLen: kyber768t.KeySeedSize,
@@ -121,6 +131,12 @@ func init() {
 			ct, ss, ss2 := outBuf(kyber768t.CiphertextSize), outBuf(kyber768t.SharedKeySize), outBuf(kyber768t.SharedKeySize)
 			pk.(*kyber768t.PublicKey).EncapsulateTo(ct, ss, r.Bytes(kyber768t.EncapsulationSeedSize))
 			sk.(*kyber768t.PrivateKey).DecapsulateTo(ss2, ct)
+			if inPlace {
+				// the same decapsulation with the secret written over the start of the ciphertext buffer
+				buf := append([]byte{}, ct...)
+				sk.(*kyber768t.PrivateKey).DecapsulateTo(buf[:len(ss2)], buf)
+				ss2 = append(ss2, buf[:len(ss2)]...)
+			}
 			return append(append(ct[:32:32], ss...), ss2...)
 		}})
 	typedKits = append(typedKits, typedKit{name: "kem/kyber/kyber1024", seedLen: kyber1024.KeySeedSize,
@@ -155,6 +171,12 @@ func init() {
 			ct, ss, ss2 := outBuf(kyber1024.CiphertextSize), outBuf(kyber1024.SharedKeySize), outBuf(kyber1024.SharedKeySize)
 			pk.(*kyber1024.PublicKey).EncapsulateTo(ct, ss, r.Bytes(kyber1024.EncapsulationSeedSize))
 			sk.(*kyber1024.PrivateKey).DecapsulateTo(ss2, ct)
+			if inPlace {
+				// the same decapsulation with the secret written over the start of the ciphertext buffer
+				buf := append([]byte{}, ct...)
+				sk.(*kyber1024.PrivateKey).DecapsulateTo(buf[:len(ss2)], buf)
+				ss2 = append(ss2, buf[:len(ss2)]...)
+			}
 			return append(append(ct[:32:32], ss...), ss2...)
 		}})
 	typedKits = append(typedKits, typedKit{name: "kem/mlkem/mlkem512", seedLen: mlkem512.KeySeedSize,
@@ -187,6 +209,12 @@ func init() {
 			ct, ss, ss2 := outBuf(mlkem512.CiphertextSize), outBuf(mlkem512.SharedKeySize), outBuf(mlkem512.SharedKeySize)
 			pk.(*mlkem512.PublicKey).EncapsulateTo(ct, ss, r.Bytes(mlkem512.EncapsulationSeedSize))
 			sk.(*mlkem512.PrivateKey).DecapsulateTo(ss2, ct)
+			if inPlace {
+				// the same decapsulation with the secret written over the start of the ciphertext buffer
+				buf := append([]byte{}, ct...)
+				sk.(*mlkem512.PrivateKey).DecapsulateTo(buf[:len(ss2)], buf)
+				ss2 = append(ss2, buf[:len(ss2)]...)
+			}
 			return append(append(ct[:32:32], ss...), ss2...)
 		}})
 	typedKits = append(typedKits, typedKit{name: "kem/mlkem/mlkem768", seedLen: mlkem768t.KeySeedSize,
@@ -219,6 +247,12 @@ func init() {
 			ct, ss, ss2 := outBuf(mlkem768t.CiphertextSize), outBuf(mlkem768t.SharedKeySize), outBuf(mlkem768t.SharedKeySize)
 			pk.(*mlkem768t.PublicKey).EncapsulateTo(ct, ss, r.Bytes(mlkem768t.EncapsulationSeedSize))
 			sk.(*mlkem768t.PrivateKey).DecapsulateTo(ss2, ct)
+			if inPlace {
+				// the same decapsulation with the secret written over the start of the ciphertext buffer
+				buf := append([]byte{}, ct...)
+				sk.(*mlkem768t.PrivateKey).DecapsulateTo(buf[:len(ss2)], buf)
+				ss2 = append(ss2, buf[:len(ss2)]...)
+			}
 			return append(append(ct[:32:32], ss...), ss2...)
 		}})
 	typedKits = append(typedKits, typedKit{name: "kem/mlkem/mlkem1024", seedLen: mlkem1024.KeySeedSize,
@@ -251,6 +285,12 @@ func init() {
 			ct, ss, ss2 := outBuf(mlkem1024.CiphertextSize), outBuf(mlkem1024.SharedKeySize), outBuf(mlkem1024.SharedKeySize)
 			pk.(*mlkem1024.PublicKey).EncapsulateTo(ct, ss, r.Bytes(mlkem1024.EncapsulationSeedSize))
 			sk.(*mlkem1024.PrivateKey).DecapsulateTo(ss2, ct)
+			if inPlace {
+				// the same decapsulation with the secret written over the start of the ciphertext buffer
+				buf := append([]byte{}, ct...)
+				sk.(*mlkem1024.PrivateKey).DecapsulateTo(buf[:len(ss2)], buf)
+				ss2 = append(ss2, buf[:len(ss2)]...)
+			}
 			return append(append(ct[:32:32], ss...), ss2...)
 		}})
 	typedKits = append(typedKits, typedKit{name: "sign/dilithium/mode2", seedLen: mode2.SeedSize,
@@ -576,6 +616,12 @@ func init() {
 			ct, ss, ss2 := outBuf(frodo640shake.CiphertextSize), outBuf(frodo640shake.SharedKeySize), outBuf(frodo640shake.SharedKeySize)
 			pk.(*frodo640shake.PublicKey).EncapsulateTo(ct, ss, r.Bytes(frodo640shake.EncapsulationSeedSize))
 			sk.(*frodo640shake.PrivateKey).DecapsulateTo(ss2, ct)
+			if inPlace {
+				// the same decapsulation with the secret written over the start of the ciphertext buffer
+				buf := append([]byte{}, ct...)
+				sk.(*frodo640shake.PrivateKey).DecapsulateTo(buf[:len(ss2)], buf)
+				ss2 = append(ss2, buf[:len(ss2)]...)
+			}
 			return append(append(ct[:32:32], ss...), ss2...)
 		}})
 	typedKits = append(typedKits, typedKit{name: "kem/xwing", seedLen: xwing.SeedSize,
@@ -601,6 +647,12 @@ func init() {
 			ct, ss, ss2 := outBuf(xwing.CiphertextSize), outBuf(xwing.SharedKeySize), outBuf(xwing.SharedKeySize)
 			pk.(*xwing.PublicKey).EncapsulateTo(ct, ss, r.Bytes(xwing.EncapsulationSeedSize))
 			sk.(*xwing.PrivateKey).DecapsulateTo(ss2, ct)
+			if inPlace {
+				// the same decapsulation with the secret written over the start of the ciphertext buffer
+				buf := append([]byte{}, ct...)
+				sk.(*xwing.PrivateKey).DecapsulateTo(buf[:len(ss2)], buf)
+				ss2 = append(ss2, buf[:len(ss2)]...)
+			}
 			return append(append(ct[:32:32], ss...), ss2...)
 		}})
 }
@@ -640,6 +692,19 @@ func typedHistory(run *core.Run, k *typedKit, imm uint64) {
 	dA, dsA, dtA := k.packPK(pkA), k.packSK(skA), k.use(fa, fsa, core.NewPRNG(useSeed))
 	dirtyOut = false
 	run.Fault("history:output-buffer-used-before")
+	inPlace = true
+	ip := k.use(fa, fsa, core.NewPRNG(useSeed))
+	inPlace = false
+	if len(ip) > len(tA) {
+		// a KEM kit: the tail is the secret of the overlapping call, the bytes before it the
+		// secret of the ordinary one
+		extra := ip[len(tA):]
+		if !bytes.Equal(ip[:len(tA)], tA) || !bytes.Equal(extra, tA[len(tA)-len(extra):]) {
+			run.Violate(comp, "result-depends-on-buffer-overlap", "decapsulating with the secret buffer laid over the start of the ciphertext buffer gives another secret than with separate buffers")
+			return
+		}
+		run.Fault("aliasing:secret-buffer-overlaps-ciphertext")
+	}
 	if !bytes.Equal(dA, bA) || !bytes.Equal(dsA, sA) || !bytes.Equal(dtA, tA) {
 		run.Violate(comp, "output-depends-on-old-buffer-contents", "packing a key or encapsulating / signing into a buffer that held other bytes gives another result than into a zeroed one (public key equal=%v, private key equal=%v, use equal=%v)", bytes.Equal(dA, bA), bytes.Equal(dsA, sA), bytes.Equal(dtA, tA))
 		return
